@@ -119,7 +119,7 @@ func c17Check(env *core.Env, cc core.Case) core.Verdict {
 		v.Counts["entries_checked"] = 7
 		return v
 
-	case "generate", "generate-stdin", "generate-include", "generate-include-affix", "generate-except", "generate-cmdline", "generate-define", "generate-define-include", "generate-beside-define", "generate-beside-define-include":
+	case "generate", "generate-stdin", "generate-include", "generate-include-pairs", "generate-include-affix", "generate-except", "generate-cmdline", "generate-define", "generate-define-include", "generate-beside-define", "generate-beside-define-include":
 		long := "q" + longBody(c.Len-1)
 		if c.Len == 1 {
 			long = "q"
@@ -136,6 +136,16 @@ func c17Check(env *core.Env, cc core.Case) core.Verdict {
 		case "generate-include":
 			tree["regex-assembly/include/big.ra"] = c.join(lines)
 			program = "zulu26\n##!> include big\n"
+			accept = append(accept, "zulu26")
+		case "generate-include-pairs":
+			// the included text goes through the suffix rewrite (some entries really end in the key)
+			tree["regex-assembly/include/big.ra"] = c.join(lines)
+			program = "zulu26\n##!> include big -- 1 ONE\n"
+			for i := range accept {
+				if strings.HasSuffix(accept[i], "1") {
+					accept[i] = strings.TrimSuffix(accept[i], "1") + "ONE"
+				}
+			}
 			accept = append(accept, "zulu26")
 		case "generate-include-affix":
 			// the include file has its own prefix and suffix, so its text is copied into a local block
@@ -499,7 +509,7 @@ func init() {
 					lens = append(lens, 65000+rng.Intn(1200), 131072-2+rng.Intn(5), 600000+rng.Intn(500000))
 				}
 			}
-			for _, cmd := range []string{"generate", "generate-stdin", "generate-include", "generate-include-affix", "generate-except", "generate-cmdline", "generate-define", "generate-define-include", "generate-beside-define", "generate-beside-define-include", "generate-long-exclusion", "generate-include-many", "format", "format-check", "renumber", "renumber-all", "copyright", "update"} {
+			for _, cmd := range []string{"generate", "generate-stdin", "generate-include", "generate-include-pairs", "generate-include-affix", "generate-except", "generate-cmdline", "generate-define", "generate-define-include", "generate-beside-define", "generate-beside-define-include", "generate-long-exclusion", "generate-include-many", "format", "format-check", "renumber", "renumber-all", "copyright", "update"} {
 				for _, l := range lens {
 					for _, pos := range []string{"first", "middle", "last"} {
 						for _, nf := range []bool{false, true} {
